@@ -87,6 +87,14 @@ def explore_template(t: Template, tier: str, seed: int):
         # ---- differential replay of the path witness on real pandas
         wit = e.witness(p)
         if wit is None:
+            if getattr(e, "last_witness_status", None) == "unknown":
+                # the solver ran out of time on the model of a path it had found feasible (string constraints under load): the path's
+                # obligations are inconclusive — neither discharged nor a verdict
+                n_ob = len(asserts) or 1
+                res["obligations"] += n_ob
+                res["inconclusive"] += n_ob
+                res["witness_timeouts"] = res.get("witness_timeouts", 0) + 1
+                continue
             res["harness_errors"].append("no witness for explored path")
             continue
         wvals = H.vals_from_model(wit, decls)
